@@ -102,12 +102,19 @@ def _build(repo, it, ins, outs, pull, start, cache=True):
     return me, inputs, outputs
 
 
-def _state(me):
-    g = me.fields
-    return {
-        "in_infos": dict(g["_exchanged_in_infos"]), "out_infos": dict(g["_exchanged_out_infos"]),
-        "pulled": dict(g["_pulled_data"]), "infos_pushed": dict(g["_pushed_infos"]), "data_pushed": dict(g["_pushed_data"]),
-    }
+def _state(me, repo=None):
+    """Bookkeeping of the helper as its public properties report it (no private attribute is named)."""
+    repo = repo or me.fields.get("__repo__")
+    it = FinamInterp(repo)
+
+    def prop(name):
+        g = repo.resolve(me.cls, name, "getter")
+        if g is None:
+            raise AnalysisError(f"ConnectHelper.{name} is not a property")
+        return dict(it.run(g, [], self_obj=me))
+
+    return {"in_infos": prop("in_infos"), "out_infos": prop("out_infos"), "pulled": prop("in_data"),
+            "infos_pushed": prop("infos_pushed"), "data_pushed": prop("data_pushed")}
 
 
 def _complete(st):
@@ -155,6 +162,13 @@ def _scenarios():
     sc.append(("staggered-out-info", {"Z": (True, slow)}, {"O": (True, False, False, "same", {"info": [FAIL, OK]})}, ["Z"], {}))
     sc.append(("staggered-push-info", {"Z": (True, slow)}, {"O": (False, False, False, "same", {"info": [FAIL, FAIL, FAIL, OK]})}, ["Z"], {"push_infos@2": {"O": "GIVEN"}}))
     sc.append(("staggered-push-data", {"Z": (True, slow)}, {"O": (True, True, False, "same", {"info": [OK]})}, ["Z"], {"push_data@3": {"O": "DATA"}}))
+    # two pushing outputs: the exchange of the first one stays outstanding for a while, the second one is ready at once
+    sc.append(("two-outputs-first-pending", {}, {"O1": (True, True, False, "same", {"info": [FAIL, FAIL, FAIL, OK]}),
+                                                 "O2": (True, True, False, "same", {"info": [OK]})}, [],
+               {"push_data": {"O1": "DATA", "O2": "DATA"}}))
+    sc.append(("two-outputs-second-pending", {}, {"O1": (True, True, False, "same", {"info": [OK]}),
+                                                  "O2": (True, True, False, "same", {"info": [FAIL, FAIL, OK]})}, [],
+               {"push_data": {"O1": "DATA", "O2": "DATA"}}))
     # never completing peer
     sc.append(("stuck", {"A": (True, {"exchange_info": [FAIL]})}, {}, ["A"], {}))
     # data for the output arrives only in a later call
@@ -185,7 +199,7 @@ def r11_r12_connect(repo, sink):
                 base, _, at = key.partition("@")
                 if (at and int(at) == k) or (not at and k == 1):
                     kw[base] = {n: (_mk_info("given", start) if v == "GIVEN" else Sym("payload", n)) for n, v in val.items()}
-            before = _state(me)
+            before = _state(me, repo)
             it.log, it.attempts = [], []
             try:
                 status = it.run(f, [start], kw, self_obj=me)
@@ -195,7 +209,7 @@ def r11_r12_connect(repo, sink):
             except Undecided as u:
                 raise AnalysisError(f"ConnectHelper.connect: undecidable {u}") from u
             n_calls += 1
-            after = _state(me)
+            after = _state(me, repo)
             st = status.args[1] if isinstance(status, Sym) and status.op == "enum" else repr(status)
             complete = _complete(after)
             progressed = _n_done(after) > _n_done(before)
@@ -210,6 +224,13 @@ def r11_r12_connect(repo, sink):
                 why = f"call {k}: something new was exchanged {it.log} but status is {st}"
             elif not complete and not progressed and st != "CONNECTING_IDLE":
                 why = f"call {k}: nothing new was exchanged but status is {st}"
+            # liveness: an output whose info exchange is complete and whose data was handed over is published in this very call
+            if why is None:
+                given = {n2 for key, val in args.items() if key.partition("@")[0] == "push_data" and int(key.partition("@")[2] or 1) <= k for n2 in val}
+                for n2 in given:
+                    if after["out_infos"].get(n2) is not None and after["infos_pushed"].get(n2) and not after["data_pushed"].get(n2):
+                        why = (f"call {k}: output {n2} has completed its info exchange and was given its initial data, but the data was not published "
+                               "(another output's outstanding exchange must not hold it back: consumers waiting for it report a false circular coupling)")
             # bookkeeping agrees with what the peers saw
             if why is None:
                 for (lbl, op, _a) in it.log:
